@@ -920,7 +920,10 @@ def finish_check(prop_id, reports, *, tier, seed, bounds, stubs, assumptions, t0
         "coverage": coverage, "assumptions": assumptions, "wall_s": round(time.time() - t0, 2),
         "violations": len(violations),
     }
-    json.dump(jsonable(ev), open(os.path.join(VERIF, "evidence", f"{prop_id}.json"), "w"), indent=1)
+    # runs against a deliberately broken tree (bin/run_seeded.sh, bin/try_patch.sh) must not overwrite the evidence
+    ev_dir = os.environ.get("VERIF_EVIDENCE_DIR") or os.path.join(VERIF, "evidence")
+    os.makedirs(ev_dir, exist_ok=True)
+    json.dump(jsonable(ev), open(os.path.join(ev_dir, f"{prop_id}.json"), "w"), indent=1)
     # ---- verdict
     for k, h in known_hits.items():
         print(f"KNOWN-FINDING: property={prop_id} {h['finding'].get('what', k)} [{k}; {h['count']} counterexamples]")
